@@ -107,6 +107,57 @@ VH_AREA(fsim) {
             }
             continue;
         }
+        if (a.replay.empty() && k % 16 == 0) {
+            // unbiasedness: over many shots of a noiseless circuit every parity of results is either fixed (equal to the reference
+            // sample's) or 50/50 — judged with a 1e-12 Bernstein bound, for the bulk sampler and for the single-shot simulator
+            GenOpts o2;
+            o2.max_qubits = 4;
+            o2.max_ops = 14;
+            o2.feedback = true;
+            CircuitGen gen2(rng, o2, &st);
+            Circuit c2 = compact_circuit(gen2.make());
+            size_t nm = c2.count_measurements();
+            out_case(k, "uniformity: " + esc_line(c2.str()));
+            if (nm == 0 || nm > 40) { st.hit("uniformity.skipped"); continue; }
+            try {
+                std::vector<std::vector<bool>> masks;
+                for (size_t i = 0; i < nm; i++) { std::vector<bool> m(nm, false); m[i] = true; masks.push_back(m); }
+                for (int i = 0; i < 8; i++) { std::vector<bool> m(nm); for (size_t j = 0; j < nm; j++) m[j] = rng.chance(0.5); masks.push_back(m); }
+                masks.push_back(std::vector<bool>(nm, true));
+                for (int which = 0; which < 2; which++) {
+                    size_t N = which == 0 ? 4096 : 1024;
+                    std::vector<size_t> counts(masks.size(), 0);
+                    if (which == 0) {
+                        std::mt19937_64 r2(rng.next());
+                        auto ref = TableauSimulator<MAX_BITWORD_WIDTH>::reference_sample_circuit(c2);
+                        auto tab = sample_batch_measurements<MAX_BITWORD_WIDTH>(c2, ref, N, r2, true);
+                        for (size_t sh = 0; sh < N; sh++)
+                            for (size_t mi = 0; mi < masks.size(); mi++) {
+                                bool par = false;
+                                for (size_t j = 0; j < nm; j++) par ^= masks[mi][j] && tab[sh][j];
+                                counts[mi] += par;
+                            }
+                    } else {
+                        std::mt19937_64 r2(rng.next());
+                        for (size_t sh = 0; sh < N; sh++) {
+                            auto rec = TableauSimulator<64>::sample_circuit(c2, r2, 0);
+                            for (size_t mi = 0; mi < masks.size(); mi++) {
+                                bool par = false;
+                                for (size_t j = 0; j < nm; j++) par ^= masks[mi][j] && rec[j];
+                                counts[mi] += par;
+                            }
+                        }
+                    }
+                    std::string txt;
+                    for (size_t mi = 0; mi < masks.size(); mi++) txt += " " + bits_str(masks[mi]) + " " + std::to_string(counts[mi]);
+                    out_q("fsim uniform " + wire_circuit(c2) + " " + std::to_string(N) + " " + std::to_string(masks.size()) + txt, "ok");
+                    st.hit(which == 0 ? "uniformity.bulk_sampler" : "uniformity.single_shot_simulator");
+                }
+            } catch (const std::exception &e) {
+                out_x(std::string("unexpected exception: ") + e.what());
+            }
+            continue;
+        }
         GenOpts o;
         o.max_qubits = 5;
         o.max_ops = a.thorough() ? 40 : 20;
